@@ -12,6 +12,7 @@ import (
 	"github.com/herohde/morlock/pkg/search"
 	"verif/bridge"
 	"verif/harness"
+	"verif/ref"
 )
 
 func init() {
@@ -202,7 +203,7 @@ func runC12(bg context.Context, cs c12case, n int64, vm *valueMemo) (cls, msg st
 func checkC12(c *harness.Check) {
 	mustAnchors(c)
 	c.Level = "fault_enumeration"
-	c.Rule = "(sequential half) fault = cancellation observed at the n-th poll of the context. For every case (root x depth x {alpha-beta+static leaf, alpha-beta+captures-only quiescence} x {empty table, table warmed by a depth-1 search}, plus Minimax and the SARGON nested search without table) the search is run once to count its N polls and then once for EVERY n in 1..N with the context cancelled from poll n on. Oracle: ErrHalted and no score; board snapshot unchanged; every ExactBound entry the halted search stored equals the reference value of its position at its depth; follow-up searches on the same table (same root same depth, depth+1, a child root) return the score they return on a table that never saw the halted search, with a principal variation. Engine level: on five roots (incl. checkmated, stalemated, claimable draw) a first analysis (depth 1, depth 2, practically unlimited) is ended by Halt / Move / TakeBack / Reset; the engine game is then the expected one and a second analysis starts and returns what a fresh engine with that game returns. distinct_nontrivial = distinct (case, number of entries left behind) outcomes"
+	c.Rule = "(sequential half) fault = cancellation observed at the n-th poll of the context. For every case (root x depth x {alpha-beta+static leaf, alpha-beta+captures-only quiescence} x {empty table, table warmed by a depth-1 search}, plus Minimax and the SARGON nested search without table; plus a family of pawn endings (kings fixed, two white pawns and one black pawn over a small set of squares, both sides to move) at depth 2 with quiescence, where a halt can land inside the quiescence search of a node's last and best move) the search is run once to count its N polls and then once for EVERY n in 1..N with the context cancelled from poll n on. Oracle: ErrHalted and no score; board snapshot unchanged; every ExactBound entry the halted search stored equals the reference value of its position at its depth; follow-up searches on the same table (same root same depth, depth+1, a child root) return the score they return on a table that never saw the halted search, with a principal variation. Engine level: on five roots (incl. checkmated, stalemated, claimable draw) a first analysis (depth 1, depth 2, practically unlimited) is ended by Halt / Move / TakeBack / Reset; the engine game is then the expected one and a second analysis starts and returns what a fresh engine with that game returns. distinct_nontrivial = distinct (case, number of entries left behind) outcomes"
 	var cases []c12case
 	roots := []searchRoot{ttRoots[0], ttRoots[2], ttRoots[3], ttRoots[4], ttRoots[7], ttRoots[8], ttRoots[11], {"R6k/8/6K1/8/8/8/8/8 b - - 0 1", nil, "net checkmated"}, {"7k/5Q2/6K1/8/8/8/8/8 b - - 0 1", nil, "net stalemate"}}
 	if c.Thorough() {
@@ -223,6 +224,36 @@ func checkC12(c *harness.Check) {
 				cases = append(cases, c12case{r, "minimax", d, false}, c12case{r, "sargon", d, false})
 			}
 		}
+	}
+	// pawn endings with promotions and captures just beyond the horizon, quiescence at the leaves: the
+	// halt can land INSIDE the quiescence search of a node's last and best move, whose made-up result
+	// then meets a window that an earlier sibling has already narrowed (kings fixed, two white pawns
+	// and one black pawn over a small set of squares, both sides to move; the first root is the
+	// demonstration of seeded change C12i)
+	pawnRoots := []string{"8/5P2/1P1k1p2/7K/8/8/8/8 b - - 0 1"}
+	wp := []int{41, 53, 50, 33, 29} // b6 f7 c7 b5 f4
+	bp := []int{45, 37, 42}         // f6 f5 c6
+	for i := 0; i < len(wp); i++ {
+		for j := i + 1; j < len(wp); j++ {
+			for _, b := range bp {
+				for _, white := range []bool{true, false} {
+					p := &ref.Pos{EP: -1, White: white}
+					p.Sq[39], p.Sq[43] = ref.K, -ref.K // Kh5, kd6
+					p.Sq[wp[i]], p.Sq[wp[j]], p.Sq[b] = ref.P, ref.P, -ref.P
+					if p.InCheck(!white) {
+						continue // the side that has just moved may not be in check
+					}
+					pawnRoots = append(pawnRoots, p.FEN(0, 1))
+				}
+			}
+		}
+	}
+	for i, f := range pawnRoots {
+		if !c.Thorough() && i%2 == 1 && i > 0 {
+			continue
+		}
+		r := searchRoot{FEN: f, Tags: "pawn ending"}
+		cases = append(cases, c12case{r, "quiescence", 2, false}, c12case{r, "quiescence", 2, true})
 	}
 	type job struct {
 		cs c12case
